@@ -260,8 +260,10 @@ func (p *peer) Dial(addr string, protoFunc ...ProtoFunc) (Session, *Status) {
 				oldConn.Close()
 			}
 			sess.changeStatus(statusOk)
-			AnywayGo(sess.startReadAndHandle)
+			// listed before its reader runs: a reader that meets the end of the
+			// connection at once must find the entry it has to remove
 			p.sessHub.set(sess)
+			AnywayGo(sess.startReadAndHandle)
 			Infof("redial ok (network:%s, addr:%s, id:%s)", p.network, addr, sess.ID())
 			return true
 		}
@@ -269,8 +271,10 @@ func (p *peer) Dial(addr string, protoFunc ...ProtoFunc) (Session, *Status) {
 
 	Infof("dial ok (network:%s, addr:%s, id:%s)", p.network, addr, sess.ID())
 	sess.changeStatus(statusOk)
-	AnywayGo(sess.startReadAndHandle)
+	// listed before its reader runs: a reader that meets the end of the
+	// connection at once must find the entry it has to remove
 	p.sessHub.set(sess)
+	AnywayGo(sess.startReadAndHandle)
 	return sess, nil
 }
 
@@ -299,8 +303,10 @@ func (p *peer) ServeConn(conn net.Conn, protoFunc ...ProtoFunc) (Session, *Statu
 	}
 	Infof("serve ok (network:%s, addr:%s, id:%s)", network, sess.RemoteAddr().String(), sess.ID())
 	sess.changeStatus(statusOk)
-	AnywayGo(sess.startReadAndHandle)
+	// listed before its reader runs: a reader that meets the end of the
+	// connection at once must find the entry it has to remove
 	p.sessHub.set(sess)
+	AnywayGo(sess.startReadAndHandle)
 	return sess, nil
 }
 
